@@ -454,10 +454,12 @@ def parseLine(raw, eols=(CRLF, LF, CR ), kind="event line"):
     Raise error if eol not found before MAX_LINE_SIZE
     """
     while True:
-        for eol in eols:  # loop over eols unless found
-            index = raw.find(eol)  # not found index == -1
-            if index >= 0:
-                break
+        index = -1
+        for each in eols:  # find earliest eol in raw, when tied first in eols wins
+            found = raw.find(each)  # not found == -1
+            if found >= 0 and (index < 0 or found < index):
+                index = found
+                eol = each
 
         if index < 0:  # not found
             if len(raw) > MAX_LINE_SIZE:
